@@ -113,3 +113,38 @@ Print Assumptions C11_cancel_sticky.
 Print Assumptions C11_cancelled_reports.
 Print Assumptions C11_first_reason_wins.
 Print Assumptions C11_holds.
+
+(** ** tie to the source text: the method bodies of src/stream.rs, re-translated
+    into Gallina by bin/rs2v on every run (Gen/StreamGen.v), are the model's
+    steps.  A method that could not be translated is [None] and its clause is
+    [True] (reported by rs2v); a method whose meaning changed breaks the proof. *)
+From RepeV Require Import Model.Condvar Base.GenPrelude Gen.StreamGen Proofs.StreamGenAgree.
+
+Theorem C11_source_translation :
+  agrees2 gen_record_sent (fun s n => (fst (step s (Sent n)), false)) /\
+  agrees3 gen_record_ack (fun s f n => (fst (step s (Ack f n)), notifies s (Ack f n))) /\
+  agrees2 gen_cancel (fun s r => (fst (step s (Cancel r)), notifies s (Cancel r))) /\
+  agrees2 gen_advance_to_file (fun s f => (fst (step s (Advance f)), true)) /\
+  agrees2 gen_set_peer (fun s p => (fst (step s (SetPeer p)), false)) /\
+  match gen_wait_for_credit with
+  | Some f => forall s len,
+      let '(s', i, nt) := f s len true in
+      (s', iter_map out_of_credit i, nt) = (fst (step s (TryCredit len)), Some (snd (step s (TryCredit len))), false)
+  | None => True
+  end.
+Proof. exact c11_source_translation. Qed.
+
+Check C11_source_translation :
+  agrees2 gen_record_sent (fun s n => (fst (step s (Sent n)), false)) /\
+  agrees3 gen_record_ack (fun s f n => (fst (step s (Ack f n)), notifies s (Ack f n))) /\
+  agrees2 gen_cancel (fun s r => (fst (step s (Cancel r)), notifies s (Cancel r))) /\
+  agrees2 gen_advance_to_file (fun s f => (fst (step s (Advance f)), true)) /\
+  agrees2 gen_set_peer (fun s p => (fst (step s (SetPeer p)), false)) /\
+  match gen_wait_for_credit with
+  | Some f => forall s len,
+      let '(s', i, nt) := f s len true in
+      (s', iter_map out_of_credit i, nt) = (fst (step s (TryCredit len)), Some (snd (step s (TryCredit len))), false)
+  | None => True
+  end.
+
+Print Assumptions C11_source_translation.
